@@ -135,12 +135,17 @@ fn cmd_jobs(args: &[String]) -> i32 {
             writeln!(t, "{}", json!({"ev": "done", "id": job["id"]})).unwrap();
             t.flush().unwrap();
         }
+        let lingering = out.result["lingering"].as_u64().unwrap_or(0);
         {
             let mut r = res_out.lock();
             let mut res = out.result;
             res["index"] = json!(i);
             writeln!(r, "{res}").unwrap();
             r.flush().unwrap();
+        }
+        if lingering > 0 {
+            // worker threads of this job are still alive: a fresh process for the remaining jobs
+            std::process::exit(4);
         }
     }
     0
